@@ -16,6 +16,65 @@ use crate::ctx::{run_impl, Case, Ctx};
 use crate::gen::*;
 use crate::objs::to_hex;
 
+/// an engine that counts the calls of its own `eval_poly` (and is `NoSimd` otherwise): the selection of the default
+/// engine serves `eval_poly` only if the decoders evaluate the locator polynomial THROUGH their engine type
+struct Probe(reed_solomon_simd::engine::NoSimd);
+static PROBE_EVALS: std::sync::atomic::AtomicUsize = std::sync::atomic::AtomicUsize::new(0);
+impl Engine for Probe {
+    fn fft(&self, d: &mut reed_solomon_simd::engine::ShardsRefMut, pos: usize, size: usize, t: usize, sd: usize) { self.0.fft(d, pos, size, t, sd) }
+    fn ifft(&self, d: &mut reed_solomon_simd::engine::ShardsRefMut, pos: usize, size: usize, t: usize, sd: usize) { self.0.ifft(d, pos, size, t, sd) }
+    fn mul(&self, x: &mut [[u8; 64]], log_m: u16) { self.0.mul(x, log_m) }
+    fn eval_poly(erasures: &mut [u16; 65536], truncated_size: usize) {
+        PROBE_EVALS.fetch_add(1, Ordering::SeqCst);
+        reed_solomon_simd::engine::NoSimd::eval_poly(erasures, truncated_size)
+    }
+}
+
+fn probe_decoders(ctx: &mut Ctx) {
+    use reed_solomon_simd::rate::{DefaultRateDecoder, DefaultRateEncoder, HighRateDecoder, HighRateEncoder, LowRateDecoder, LowRateEncoder, RateDecoder, RateEncoder};
+    use reed_solomon_simd::engine::NoSimd;
+    fn one<D: RateDecoder<Probe>, C: RateEncoder<NoSimd>>(ctx: &mut Ctx, what: &str, k: usize, r: usize, sb: usize) {
+        let mut rng = crate::prng::Prng::new((k * 131 + r) as u64);
+        let originals: Vec<Vec<u8>> = (0..k).map(|_| rng.bytes(sb)).collect();
+        let recovery: Vec<Vec<u8>> = {
+            let mut e = match C::new(k, r, sb, NoSimd::new(), None) { Ok(e) => e, Err(_) => return };
+            for o in &originals { e.add_original_shard(o).unwrap(); }
+            let res = e.encode().unwrap();
+            res.recovery_iter().map(|s| s.to_vec()).collect()
+        };
+        let case = Case { name: format!("probe {} {}:{}", what, k, r), lines: vec![format!("{}<Probe> {}:{} size {} original 0 lost", what, k, r, sb)], with_model: false };
+        let _ = NoSimd::new();
+        let mut d = match D::new(k, r, sb, Probe(NoSimd::new()), None) { Ok(d) => d, Err(e) => { ctx.oracle_fail(format!("{}: {:?}", what, e), &case, None); return; } };
+        for round in 0..2 {
+            PROBE_EVALS.store(0, Ordering::SeqCst);
+            for i in 1..k { d.add_original_shard(i, &originals[i]).unwrap(); }
+            d.add_recovery_shard(r - 1, &recovery[r - 1]).unwrap();
+            let ok = match d.decode() {
+                Ok(res) => res.restored_original(0).map(|s| s == &originals[0][..]).unwrap_or(false),
+                Err(_) => false,
+            };
+            let n = PROBE_EVALS.load(Ordering::SeqCst);
+            ctx.evaluations += 1;
+            ctx.count("probe", what);
+            if !ok {
+                ctx.oracle_fail(format!("{} with the probe engine does not restore the lost original ({}:{}, round {})", what, k, r, round), &case, None);
+            }
+            if n != 1 {
+                ctx.oracle_fail(format!("{} called its engine's eval_poly {} times in one decode with a lost original ({}:{}, round {}): the engine selection does not serve the polynomial evaluation", what, n, k, r, round), &case, None);
+            }
+        }
+    }
+    // the rule picks low for (3, 5) and (5, 4) [same power of two, k > r], high for (5, 3) and (4, 5)
+    one::<HighRateDecoder<Probe>, HighRateEncoder<NoSimd>>(ctx, "HighRateDecoder", 5, 3, 64);
+    one::<HighRateDecoder<Probe>, HighRateEncoder<NoSimd>>(ctx, "HighRateDecoder", 3, 9, 66);
+    one::<LowRateDecoder<Probe>, LowRateEncoder<NoSimd>>(ctx, "LowRateDecoder", 3, 5, 64);
+    one::<LowRateDecoder<Probe>, LowRateEncoder<NoSimd>>(ctx, "LowRateDecoder", 9, 3, 2);
+    one::<DefaultRateDecoder<Probe>, DefaultRateEncoder<NoSimd>>(ctx, "DefaultRateDecoder(high)", 5, 3, 130);
+    one::<DefaultRateDecoder<Probe>, DefaultRateEncoder<NoSimd>>(ctx, "DefaultRateDecoder(high)", 4, 5, 64);
+    one::<DefaultRateDecoder<Probe>, DefaultRateEncoder<NoSimd>>(ctx, "DefaultRateDecoder(low)", 3, 5, 64);
+    one::<DefaultRateDecoder<Probe>, DefaultRateEncoder<NoSimd>>(ctx, "DefaultRateDecoder(low)", 5, 4, 6);
+}
+
 fn isa_names(bits: usize) -> Vec<&'static str> {
     let mut v = vec![];
     if bits & ISA_AVX2 != 0 { v.push("avx2"); }
@@ -141,6 +200,9 @@ pub fn run(ctx: &mut Ctx) {
         }
     }
     FEATURE_MASK.store(usize::MAX, Ordering::SeqCst);
+
+    // every decoder evaluates the locator polynomial through its engine (so that the selection above applies to it)
+    probe_decoders(ctx);
 
     // AArch64 selection logic through the source port
     #[cfg(feature = "neon-port")]
